@@ -6,6 +6,7 @@ import ast
 from .. import arrays as AR
 from ..core import Finding
 from ._arr import run_array_property, ASSUMPTIONS
+from ._stk import run_stock_property
 
 LEVEL = "other"
 EXPLANATION = (
@@ -38,6 +39,8 @@ def family(prog, name, tier, taint_mode):
         return AR.producer_cases(prog, alpha, taint_mode)
     if name == "stocks":
         return AR.stock_ctor_cases(prog, taint_mode)
+    if name == "lifetime":
+        return AR.lifetime_param_cases(prog, "tab", taint_mode)
     raise KeyError(name)
 
 
@@ -136,12 +139,16 @@ def run(prog, rep):
     rep.rule("C13.accepted", "well-formed constructions are accepted and yield arrays / stocks over the given dims")
     aspects = {("*", "invariant"): "C13.invariant", ("*", "atomic"): "C13.failed-call-changes-nothing",
                ("setitem-illformed", "raises"): "C13.refusals", ("ctor-illformed", "raises"): "C13.refusals",
-               ("stock-ctor", "raises"): "C13.refusals", ("stock-ctor", "result"): "C13.accepted", ("ctor", "result"): "C13.accepted"}
+               ("stock-ctor", "raises"): "C13.refusals", ("lifetime-param", "raises"): "C13.refusals", ("stock-ctor", "result"): "C13.accepted", ("ctor", "result"): "C13.accepted"}
     prog.method("FlodymArray", "set_values")
     for c in ("Stock", "DynamicStockModel", "DimensionSet"):
         prog.cls(c)
-    run_array_property(prog, rep, "C13", ["arith", "reduce", "index", "misc", "illformed", "producers", "stocks", "stocks@uniform", "index@uniform"], aspects)
+    run_array_property(prog, rep, "C13", ["arith", "reduce", "index", "misc", "illformed", "producers", "stocks", "lifetime", "stocks@uniform", "index@uniform"], aspects)
     who_may_rebind(prog, rep)
+    # a compute() that raises half-way (exact array domain): nothing of the stock may have changed
+    jobs = [("failed", dict(n_t=3, labels=labels, dist="NormalLifetime", over="all", n_pts=1, inflow_at="middle", solver=solver))
+            for labels in (("a",), ("a", "b")) for solver in ("lapack", "manual")]
+    run_stock_property(prog, rep, "C13", jobs, {"atomic": "C13.failed-call-changes-nothing"})
     rep.rules["C13.invariant"]["floor"] = 3000
     rep.rules["C13.failed-call-changes-nothing"]["floor"] = 150
     rep.rules["C13.refusals"]["floor"] = 100
